@@ -236,6 +236,20 @@ theorem C16_otsu_optimal (hist : List Nat) (total : Int) (htot : total = cumW hi
     · have := ub t ht; omega
     · have := hfirst t ht; omega
 
+/-- size of the between-class variance: 0 ≤ v ≤ total²·255² for every candidate, so for images of at most 372 000 pixels every value the
+    variance loop forms (the code multiplies in `double`) is an integer below 2^53, exactly representable: the exact-`Int` model of the loop
+    and the `double` code agree there (quantifies the "double vs Int" assumption) -/
+theorem C16_otsu_variance_fits_double (hist : List Nat) (total : Int) (htot : total = cumW hist 256) (t : Nat) (ht : t < 256) :
+    0 ≤ otsuVar hist total t ∧ otsuVar hist total t ≤ total * total * (255 * 255)
+    ∧ (total ≤ 372000 → otsuVar hist total t < 9007199254740992) := by
+  have hT0 : 0 ≤ total := by rw [htot]; exact cumW_nonneg hist 256
+  have b := otsuVar_le hist total htot t ht
+  refine ⟨otsuVar_nonneg hist total htot t ht, b, fun hsmall => ?_⟩
+  have tt : total * total ≤ 372000 * 372000 := Int.mul_le_mul hsmall hsmall hT0 (by omega)
+  have := Int.mul_le_mul_of_nonneg_right tt (show (0 : Int) ≤ 255 * 255 by omega)
+  generalize total * total = q at *
+  omega
+
 /-- the histogram `otsu_impl` builds has 256 bins that add up to the number of pixels (hypothesis of `C16_otsu_optimal`) -/
 theorem C16_otsu_histogram_total (c : Ch) (tm : Bool) (mn mx : Int) (pixels : List Int) (hist : List Nat)
     (h : buildHist c tm mn mx pixels = .ok hist) : hist.length = 256 ∧ cumW hist 256 = (pixels.length : Int) :=
